@@ -478,7 +478,11 @@ def _job(args) -> dict:
                 run = CaseRun(_ENV, Picker(pools[e], random.Random(f"{hseed}/{os.path.basename(path)}/{i}/{e}")))
                 try:
                     if mode == "stage":
-                        run.run_stage_case(hist)
+                        try:
+                            run.run_stage_case(hist)
+                        finally:     # keep the scratch database small (large values!): rows are reused by SQLite
+                            if getattr(run, "wf_id", None):
+                                _ENV.store.delete(run.wf_id)
                     else:
                         run.run_queue_case(hist)
                 except Exception as ex:  # noqa: BLE001
